@@ -99,6 +99,14 @@ MACMOD3_SRC = '''
 (setv _hy_export_macros [])
 '''
 
+MACMOD4_SRC = '''
+(defmacro pub [] 41)
+(defmacro _listed [] 42)
+(defmacro __also-listed [] 43)
+(defmacro _unlisted [] 44)
+(export :macros [pub _listed __also-listed])
+'''
+
 # (program, expected value or ("error", class name) ; optional expected warning substring)
 SCENARIOS = [
     ("(defmacro a [] 1) (a)", 1, None),
@@ -125,6 +133,10 @@ SCENARIOS = [
     ("(require vfmacmod35c *) (m1)", ("error", "NameError"), None),
     ("(require vfmacmod35c *) (require vfmacmod35c [m2]) (m2)", 32, None),
     ("(defn f [] (require vfmacmod35c *) (m1)) (f)", ("error", "NameError"), None),
+    # an export list that names underscore-led macros exports them
+    ("(require vfmacmod35d *) [(pub) (_listed) (__also-listed)]", [41, 42, 43], None),
+    ("(require vfmacmod35d *) (_unlisted)", ("error", "NameError"), None),
+    ("(defn f [] (require vfmacmod35d *) (_listed)) (f)", 42, None),
     ("(require vfmacmod35 [nope])", ("error", "HyRequireError"), None),
     ("(require no_such_module_vf35)", ("error", "HyRequireError"), None),
     ("(require vfmacmod35 [m1]) (require vfmacmod35b [m1]) (m1)", 21, None),
@@ -149,7 +161,7 @@ def _setup_modules():
 
     import hy
 
-    for nm, src in (("vfmacmod35", MACMOD_SRC), ("vfmacmod35b", MACMOD2_SRC), ("vfmacmod35c", MACMOD3_SRC)):
+    for nm, src in (("vfmacmod35", MACMOD_SRC), ("vfmacmod35b", MACMOD2_SRC), ("vfmacmod35c", MACMOD3_SRC), ("vfmacmod35d", MACMOD4_SRC)):
         if nm not in sys.modules:
             m = types.ModuleType(nm)
             sys.modules[nm] = m
